@@ -39,7 +39,8 @@ def main():
             meta = {}
             if os.path.exists(os.path.join(d, 'meta.json')):
                 meta = json.load(open(os.path.join(d, 'meta.json')))
-            prop = meta.get('property') or re.match(r'(C\d\d)', os.path.basename(d.rstrip('/')).replace('seed-', '')).group(1)
+            m_ = re.search(r'(C\d\d)', d)
+            prop = meta.get('property') or (m_.group(1) if m_ else 'C01')
             props = ['C%02d' % i for i in range(1, 21)] if allprops else [prop]
             env = dict(os.environ, VERIF_REPO=scratch)
             for pr in props:
